@@ -330,6 +330,8 @@ fn run_client_side(ctx: &RunCtx) -> RunOut {
         let n = 1 + draw_usize(3);
         (0..n).map(|_| *pick(&[8u64, 4, 0, 12, 400, 1, 2, 3, 7, 16384])).collect()
     };
+    // one run in three: the client application calls shutdown() itself before the server's GOAWAYs are processed
+    let own_shutdown = draw(3) == 2;
     // reference: first bad index
     let mut prev: Option<u64> = None;
     let mut bad: Option<usize> = None;
@@ -375,6 +377,14 @@ fn run_client_side(ctx: &RunCtx) -> RunOut {
             };
             let rec_d = rec.clone();
             exec::spawn("driver", async move {
+                if own_shutdown {
+                    // the client begins its own graceful shutdown first; what the server sends afterwards is still checked
+                    obs::count("probe.client_shutdown_before_goaway");
+                    if let Err(e) = driver.shutdown(0).await {
+                        rec_d.borrow_mut().driver = Some(cout(&e));
+                        std::future::pending::<()>().await;
+                    }
+                }
                 let e = poll_fn(|cx| driver.poll_close(cx)).await;
                 rec_d.borrow_mut().driver = Some(cout(&e));
                 std::future::pending::<()>().await;
@@ -428,6 +438,13 @@ fn run_client_side(ctx: &RunCtx) -> RunOut {
                 return mk("C08.bad_goaway_not_id_error", format!("GOAWAY #{i} ({}) is {why}: expected connection error H3_ID_ERROR, driver {:?}, close {:?}", seq[i], driver_q1, close_q1.map(code_name))).map_fact("why", why);
             }
         }
+        None if own_shutdown => {
+            // the client is shutting down by its own choice: how its driver ends and how new requests are refused
+            // is not the peer's GOAWAY's doing; only an H3_ID_ERROR on this valid sequence would be wrong
+            if driver_q1 == Some(COut::Local(0x108)) {
+                return mk("C08.valid_goaway_sequence_failed", "driver ended with H3_ID_ERROR on a valid GOAWAY sequence".into());
+            }
+        }
         None => {
             if let Some(d) = &driver_q1 {
                 return mk("C08.valid_goaway_sequence_failed", format!("driver ended with {d} on a valid GOAWAY sequence"));
@@ -458,7 +475,7 @@ impl Check for C08 {
     fn meta(&self) -> Meta {
         Meta {
             level: "exploration",
-            rule: "server side: histories interleaving 1-6 request arrivals (peer write order and, with arrival-order accept, delivery order drawn, so stream 8 may arrive before 4), 0-3 shutdown(n) calls with n in 0..3 at drawn moments (accept() cancelled as in the documented select pattern), request handling; client side: received GOAWAY id sequences of length 1-3 over {8,4,0,12,400,16384,1,2,3,7} in all varint forms, racing and later send_request calls; all task interleavings and chunkings drawn; non-trivial = a GOAWAY was written and >= 2 requests (server) / >= 2 GOAWAYs or >= 2 chunks (client); distinct = distinct schedule signatures",
+            rule: "server side: histories interleaving 1-6 request arrivals (peer write order and, with arrival-order accept, delivery order drawn, so stream 8 may arrive before 4), 0-3 shutdown(n) calls with n in 0..3 at drawn moments (accept() cancelled as in the documented select pattern), request handling; client side: received GOAWAY id sequences of length 1-3 over {8,4,0,12,400,16384,1,2,3,7} in all varint forms, racing and later send_request calls, in one run in three after the client application called shutdown() itself; all task interleavings and chunkings drawn; non-trivial = a GOAWAY was written and >= 2 requests (server) / >= 2 GOAWAYs or >= 2 chunks (client); distinct = distinct schedule signatures",
             real: &["h3 server Connection (accept filter, shutdown, last-accepted bookkeeping)", "h3 client Connection (GOAWAY processing) and SendRequest", "ConnectionInner::shutdown / process_goaway"],
             stub: &["QUIC transport (SimQuic)", "executor (simexec)", "peer (script; parses h3's control stream with the reference codecs)", "application (accept/shutdown loop, echo handler; client probes)"],
             assumptions: &["the sequential history of the accept task defines 'shown before / after a GOAWAY was written'", "requests racing with the delivery of a GOAWAY are unconstrained"],
